@@ -83,7 +83,7 @@ def deferrable_tokens(d):
     return K("DEFERRABLE INITIALLY") + T(d)
 
 
-CHECK_FNS = [None, None, None, "abs", "length", "coalesce2"]      # a function call around the column: parentheses inside the condition, before the comparison
+CHECK_FNS = [None, None, None, "abs", "length", "coalesce2", "div"]      # a function call around the column: parentheses inside the condition, before the comparison
 
 
 def check_lhs(o):
@@ -92,6 +92,8 @@ def check_lhs(o):
         return I(o["col"])
     if fn == "coalesce2":
         return T("coalesce") + paren(I(o["col"]) + P(",") + N(0))
+    if fn == "div":
+        return I(o["col"]) + T("/") + N(2)          # an operator that is a word of its own (always set off by white space)
     return T(fn) + paren(I(o["col"]))
 
 
@@ -101,6 +103,8 @@ def check_lhs_text(o):
         return o["col"]
     if fn == "coalesce2":
         return "coalesce(%s,0)" % o["col"]
+    if fn == "div":
+        return "%s / 2" % o["col"]
     return "%s(%s)" % (fn, o["col"])
 
 
